@@ -34,7 +34,8 @@ def gen(rng, tier, no, wide=False):
     sel = None if rng.random() < 0.4 else sorted(rng.sample(streams, rng.randint(1, len(streams))))
     gaps = [0, 1, 2, 3, 5, 10, 30, 60, 1000]
     case["params"] = {"ranks": sorted(rng.sample(sorted(case["ranks"]), rng.randint(1, len(case["ranks"])))),
-                      "streams": sel, "delay": rng.choice(gaps) * rng.choice([1, case["cfg"]["grid"]])}
+                      "streams": sel, "delay": rng.choice(gaps) * rng.choice([1, case["cfg"]["grid"]]),
+                      "stats": rng.random() < 0.3}
     return case
 
 
@@ -55,15 +56,22 @@ def observe(case):
     ta, files = C.load_case(case)
     try:
         rows = {r: htaio.rows_of(ta.t, r) for r in p["ranks"]}
+        extra: Dict[str, Any] = {}
         try:
-            df, _ = ta.get_idle_time_breakdown(ranks=list(p["ranks"]), streams=p["streams"], visualize=False,
-                                               consecutive_kernel_delay=p["delay"])
+            df, st = ta.get_idle_time_breakdown(ranks=list(p["ranks"]), streams=p["streams"], visualize=False,
+                                                consecutive_kernel_delay=p["delay"], show_idle_interval_stats=bool(p.get("stats")))
             canon: Dict[str, Any] = {}
+            if p.get("stats") and st is not None:
+                # the optional second frame: per category the number of gaps and their mean length
+                stats = {}
+                for cat, rec in st.reset_index().rename(columns={"index": "idle_category"}).set_index("idle_category", drop=False).iterrows():
+                    stats.setdefault(f"{int(rec['rank'])}|{int(rec['stream'])}", {})[str(cat)] = [C.num(rec["count"]), C.num(rec["mean"])]
+                extra["stats"] = stats
             for rec in df.itertuples(index=False):
                 canon.setdefault(f"{int(rec.rank)}|{int(rec.stream)}", {})[str(rec.idle_category)] = [C.num(rec.idle_time), C.num(rec.idle_time_ratio)]
         except Exception as e:  # noqa: BLE001
             canon = {"raises": C.exc_name(e) + ": " + str(e)[:100]}
-        return {"rows": rows, "canon": canon}
+        return {"rows": rows, "canon": canon, "stats": extra.get("stats")}
     finally:
         htaio.remove_case_dir(files)
 
@@ -157,6 +165,14 @@ def oracle(case, obs) -> List[str]:
             rs = [float(v[1]) for v in got.values() if v[1] != "nan"]
             if tot != 0 and abs(sum(rs) - 1.0) > 0.011 * len(rs):
                 out.append(f"{key}: ratios add up to {sum(rs)}")
+            st = (obs.get("stats") or {}).get(key)
+            if st is not None:
+                n = sum(int(float(v[0])) for v in st.values() if v[0] != "nan")
+                if n != len(ks) - 1:
+                    out.append(f"{key}: interval statistics count {n} gaps, the stream has {len(ks) - 1}")
+                for cat, v in st.items():
+                    if v[0] != "nan" and float(v[0]) > 0 and cat in exp and abs(float(v[0]) * float(v[1]) - exp[cat]) > 0.005 * float(v[0]) + 1e-6:
+                        out.append(f"{key} {cat}: interval statistics count*mean = {float(v[0]) * float(v[1])}, gaps add up to {exp[cat]}")
     return out
 
 
